@@ -7,6 +7,7 @@
    3 the delta CRL of a downloaded bundle is not "present exactly when the base advertises a location,
      taken from the first location that answers"
    4 a cache read failure was hidden although errors are not discarded / a cache miss became an error
+   7 a URL whose scheme is not http was requested
    6 a bundle was returned without any download although it is not the bundle the cache holds for that URL
      (the cache holds what the caller put there and what completed downloads wrote back, nothing else) *)
 From NCG Require Export Model.Fetcher.
@@ -36,6 +37,7 @@ Definition is_set (e : fevent) : bool := match e with ESet _ => true | _ => fals
 (* the checks on one fetch: w = the world before it (as the model tracks it), u the URL *)
 Definition fetch_spec (cfg : fcfg) (w : fworld) (u : Z) (r : fres) (ev : list fevent) : Z :=
   let downloaded := existsb is_download ev in
+  if existsb (fun e => match e with EDownload v => negb (plain_http v) | _ => false end) ev then 7 else
   match r with
   | FOk b _ =>
       if negb downloaded &&
@@ -44,7 +46,7 @@ Definition fetch_spec (cfg : fcfg) (w : fworld) (u : Z) (r : fres) (ev : list fe
               negb (match lookup (fw_cache w) u with Some b' => fbundle_eqb b b' | None => false end) then 6
       else if downloaded && fc_cache cfg && (negb (existsb is_set ev) || (fw_set_fault w && negb (fc_discard cfg))) then 2
       else if downloaded &&
-              negb (match lookup (fw_server w) u with
+              negb (match dl (fw_server w) u with
                     | Some base => fcrl_eqb base (fb_base b) &&
                         match fetch_delta (fw_server w) base with
                         | (DNone, _) => match fb_delta b with None => true | Some _ => false end
@@ -57,7 +59,7 @@ Definition fetch_spec (cfg : fcfg) (w : fworld) (u : Z) (r : fres) (ev : list fe
   | FErr =>
       (* a cache miss (or no cache) with everything downloadable must not be an error *)
       if negb (fw_get_fault w && negb (fc_discard cfg) && fc_cache cfg) && negb (fw_set_fault w && negb (fc_discard cfg) && fc_cache cfg) &&
-         match lookup (fw_server w) u with
+         match dl (fw_server w) u with
          | Some base => match fetch_delta (fw_server w) base with (DErr, _) => false | _ => true end
          | None => false end &&
          match lookup (fw_cache w) u with None => true | Some _ => negb (fc_cache cfg) || true end then 4
